@@ -551,6 +551,30 @@ impl HugeEntry {
     }
 }
 
+/// Verification access to the huge entry transitions (on raw bits)
+#[cfg(feature = "verif")]
+pub mod verif_huge_entry {
+    use super::HugeEntry;
+    pub fn new_huge() -> u16 {
+        HugeEntry::new_huge().into_bits()
+    }
+    pub fn new_with(free: usize) -> u16 {
+        HugeEntry::new_with(free).into_bits()
+    }
+    pub fn huge(raw: u16) -> bool {
+        HugeEntry::from_bits(raw).huge()
+    }
+    pub fn free(raw: u16) -> usize {
+        HugeEntry::from_bits(raw).free()
+    }
+    pub fn dec(raw: u16, num_frames: usize) -> Option<u16> {
+        HugeEntry::from_bits(raw).dec(num_frames).map(HugeEntry::into_bits)
+    }
+    pub fn inc(raw: u16, num_frames: usize) -> Option<u16> {
+        HugeEntry::from_bits(raw).inc(num_frames).map(HugeEntry::into_bits)
+    }
+}
+
 #[cfg(test)]
 mod test {
     use core::mem::ManuallyDrop;
